@@ -665,13 +665,24 @@ def p_bisect(I, n, pos, kw):
 @prim("scipy.spatial.distance.cityblock")
 def p_cityblock(I, n, pos, kw):
     a, b = pos
-    I.event("cityblock", n, a=a, b=b)
-    if isinstance(a, Bag) and isinstance(b, Bag) and a.is_sorted and b.is_sorted:
-        sa = a.size if a.size is not None else sym.Opq("len", ())
-        sb = b.size if b.size is not None else sym.Opq("len", ())
+
+    def as_bag(v):
+        if isinstance(v, Bag):
+            return v
+        if isinstance(v, Concat):
+            return Bag(generic_elem(v), p_len(I, n, [v], {}).e, False, None, v.parts)
+        if isinstance(v, Arr) and v.ndim == 1:
+            return Bag(v.elem, v.axes[0][0].size, False, v.uid, [v])
+        return None
+    ba, bb = as_bag(a), as_bag(b)
+    I.event("cityblock", n, a=ba if ba is not None else a, b=bb if bb is not None else b)
+    if ba is not None and bb is not None:
+        sa = ba.size if ba.size is not None else sym.Opq("len", ())
+        sb = bb.size if bb.size is not None else sym.Opq("len", ())
         if not sym.equal(sa, sb):
             I.event("shape-error", n, message=f"cityblock of vectors of sizes {sym.show(sa)} and {sym.show(sb)}")
-        return Sc(sym.fn("l1_sorted", a.elem, b.elem))
+        name = "l1_sorted" if (ba.is_sorted and bb.is_sorted) else "l1_positional"
+        return Sc(sym.fn(name, ba.elem, bb.elem))
     return arrays.reduce_all(arrays.unop(lambda e: sym.fn("abs", e), arrays.binop(sym.sub, a, b)), "sum")
 
 
